@@ -36,6 +36,11 @@ Proof.
     + cbn [app qsplit]. rewrite E, IH. reflexivity.
 Qed.
 
+Lemma quote_unquote_l :
+  forall s rest, starts_with 39 rest = false ->
+    qsplit 39 (escape s ++ 39 :: rest) = Some (escape s, rest) /\ unescape (escape s) = s.
+Proof. intros s rest H. split; [exact (qsplit_escape_l s rest H)|exact (unescape_escape_l s)]. Qed.
+
 Lemma render_text_app s rest : render (VText s) ++ rest = 39 :: (escape s ++ 39 :: rest).
 Proof. cbn [render app]. rewrite <- app_assoc. reflexivity. Qed.
 
